@@ -312,16 +312,50 @@ def rule_formatchecker_owns(ctx, rid="R16.5"):
     return r
 
 
+def _four_checkers_eval(prog):
+    """The module-level bindings of the four draft checkers evaluated by sa/tokeval.py (each module-level expression once, as at
+    import): -> {draft: None | (tag, message)}; None when outside the evaluated fragment."""
+    from ..tokeval import Ev, Obj, Undecided, PyRaise
+    ev = Ev(prog, fuel=20000)
+    try:
+        objs = {d: ev.module_value("_format", "%s_format_checker" % d) for d in ("draft3", "draft4", "draft6", "draft7")}
+        fc = prog.cls("_format.FormatChecker")
+        cls_reg = ev.class_attr(fc, "checkers") if "checkers" in fc.attrs else None
+    except (Undecided, PyRaise, RecursionError, KeyError, AttributeError):
+        return None
+    out = {}
+    for d, o in objs.items():
+        out[d] = None
+        if not (isinstance(o, Obj) and o.cls.name == "FormatChecker"):
+            return None
+        reg = o.attrs.get("checkers")
+        if not isinstance(reg, dict):
+            return None
+        for d2, o2 in objs.items():
+            if d2 < d and (o2 is o or (isinstance(o2, Obj) and o2.attrs.get("checkers") is reg)):
+                out[d] = ("with-%s" % d2, "%s_format_checker and %s_format_checker are one object (or share one registry): a format "
+                          "registered for one draft is checked under the other" % (d2, d))
+        if cls_reg is not None and reg is cls_reg:
+            out[d] = ("with-class", "%s_format_checker's registry is the class-level FormatChecker.checkers itself" % d)
+    return out
+
+
 def rule_four_checkers(ctx, rid="R16.6"):
     prog = ctx.prog
     m = prog.mod("_format")
     r = ctx.rule(rid, "the four draft format checkers are four separately constructed objects", floor=4)
+    sem = _four_checkers_eval(prog)
     for d in ("draft3", "draft4", "draft6", "draft7"):
         name = "%s_format_checker" % d
         binds = m.bindings.get(name, [])
         ok = len(binds) == 1 and isinstance(binds[0][0], ast.Call) and norm(binds[0][0].func) == "FormatChecker" and \
             isinstance(binds[0][1], ast.Assign) and len(binds[0][1].targets) == 1
-        if ok:
+        if sem is not None and sem.get(d):
+            r.fail("_format.%s|shared|%s" % (name, sem[d][0]), "jsonschema/_format.py %s" % name, sem[d][1])
+        elif not ok and sem is not None and len(binds) == 1:
+            r.ok("jsonschema/_format.py:%d %s" % (binds[0][1].lineno, name),
+                 "= %s: evaluated (sa/tokeval.py) to a FormatChecker of its own, with a registry of its own" % norm(binds[0][0])[:60])
+        elif ok:
             r.ok("jsonschema/_format.py:%d %s" % (binds[0][1].lineno, name), "= FormatChecker() (own call)")
         else:
             r.fail("_format.%s|binding|%s" % (name, ";".join(norm(b[0]) for b in binds)), "jsonschema/_format.py %s" % name,
